@@ -360,7 +360,7 @@ type memoEvt struct {
 
 // runInterleaving executes one schedule on the real memoizer. Threads: index 0.. ; each entry of sched lets
 // that thread run to its next yield point (or to its end).
-func runInterleaving(kinds string, sameKey bool, warm bool, remove bool, sched []int) (reads []string, final string, ok bool) {
+func runInterleaving(kinds string, sameKey bool, warm bool, remove bool, m string, sched []int) (reads []string, final string, ok bool) {
 	ctx := context.Background()
 	inner := memory.NewStore()
 	memo := memoization.New(inner)
@@ -373,9 +373,17 @@ func runInterleaving(kinds string, sameKey bool, warm bool, remove bool, sched [
 		t, _ := triple.New(s, p, oOld)
 		base = append(base, t)
 	}
+	// the update: whatever the look-up, its answer for (s, p, oOld) is non-empty before and after and changes — a
+	// new object under (s, p), a new predicate between s and oOld, a new subject for (p, oOld)
 	var delta []*triple.Triple
+	p2 := mustImm("p2")
 	for _, s := range []*node.Node{s1, s2} {
 		t, _ := triple.New(s, p, oNew)
+		u, _ := triple.New(s, p2, oOld)
+		delta = append(delta, t, u)
+	}
+	{
+		t, _ := triple.New(mustNode("/u", "c"), p, oOld)
 		delta = append(delta, t)
 	}
 	if remove {
@@ -389,20 +397,53 @@ func runInterleaving(kinds string, sameKey bool, warm bool, remove bool, sched [
 		}
 		return s2
 	}
-	version := func(res string) string {
-		has := strings.Contains(res, hx(oNew.String()))
-		if !strings.HasPrefix(res, "ok") {
-			return "E"
+	// every look-up method, with arguments under which the update changes its answer: what the look-up answers on a
+	// plain graph before and after the update tells which state a reader saw
+	needS, needP, needO := methodNeeds(m)
+	look := func(h storage.Graph, s *node.Node) string {
+		var as *node.Node
+		var ap *predicate.Predicate
+		var ao *triple.Object
+		if needS {
+			as = s
 		}
-		if has != remove {
-			return "1" // sees the update (added element present / removed element gone)
+		if needP {
+			ap = p
 		}
-		return "0"
+		if needO {
+			ao = oOld
+		}
+		return runLookup(h, m, as, ap, ao, storage.DefaultLookup)
+	}
+	plainOf := func(ts []*triple.Triple) storage.Graph {
+		pg, _ := memory.NewStore().NewGraph(ctx, "?p")
+		pg.AddTriples(ctx, ts)
+		return pg
+	}
+	withDelta := plainOf(append(append([]*triple.Triple{}, base...), delta...))
+	withoutDelta := plainOf(base)
+	after, before := withDelta, withoutDelta
+	if remove {
+		after, before = withoutDelta, withDelta
+	}
+	versionFor := func(s *node.Node) func(string) string {
+		a, b := look(after, s), look(before, s)
+		return func(res string) string {
+			switch {
+			case !strings.HasPrefix(res, "ok"):
+				return "E"
+			case res == a:
+				return "1" // sees the update
+			case res == b:
+				return "0"
+			}
+			return "?"
+		}
 	}
 	if warm {
-		runLookup(gr, "objects", s1, p, nil, storage.DefaultLookup)
+		look(gr, s1)
 		if !sameKey {
-			runLookup(gr, "objects", s2, p, nil, storage.DefaultLookup)
+			look(gr, s2)
 		}
 	}
 	threads := make([]*memoThread, len(kinds))
@@ -435,7 +476,7 @@ func runInterleaving(kinds string, sameKey bool, warm bool, remove bool, sched [
 				th.result = "w"
 			} else {
 				h, _ := memo.Graph(ctx, "?g")
-				th.result = version(runLookup(h, "objects", subjOf(rn), p, nil, storage.DefaultLookup))
+				th.result = versionFor(subjOf(rn))(look(h, subjOf(rn)))
 			}
 			evts <- memoEvt{id: i, done: true}
 		}(i, th)
@@ -477,8 +518,8 @@ func runInterleaving(kinds string, sameKey bool, warm bool, remove bool, sched [
 	}
 	memoization.YieldHook = nil
 	h, _ := memo.Graph(ctx, "?g")
-	f1 := version(runLookup(h, "objects", s1, p, nil, storage.DefaultLookup))
-	f2 := version(runLookup(h, "objects", s2, p, nil, storage.DefaultLookup))
+	f1 := versionFor(s1)(look(h, s1))
+	f2 := versionFor(s2)(look(h, s2))
 	return reads, f1 + f2, true
 }
 
@@ -523,8 +564,12 @@ func memoInterleaved(r *rng, g *storeGen, sample int, hist map[string]int) {
 							picked = append(picked, scheds[r.intn(len(scheds))])
 						}
 					}
-					for _, sc := range picked {
-						reads, final, ok := runInterleaving(kinds, sameKey, warm, remove, sc)
+					for si, sc := range picked {
+						m := allMethods[(si+len(kinds))%len(allMethods)]
+						if needS, _, _ := methodNeeds(m); !needS && !sameKey {
+							m = []string{"objects", "predsForSO", "predsForS", "triplesForS", "triplesForSP"}[si%5] // two keys need the subject in the key
+						}
+						reads, final, ok := runInterleaving(kinds, sameKey, warm, remove, m, sc)
 						ans := "hang"
 						if ok {
 							ans = "r=" + strings.Join(reads, ",") + " final=" + final
@@ -535,7 +580,7 @@ func memoInterleaved(r *rng, g *storeGen, sample int, hist map[string]int) {
 							}
 							return 0
 						}
-						g.emit(fmt.Sprintf("I threads=%s same=%d warm=%d remove=%d sched=%s", kinds, b(sameKey), b(warm), b(remove), joinInts(sc)), ans)
+						g.emit(fmt.Sprintf("I threads=%s same=%d warm=%d remove=%d m=%s sched=%s", kinds, b(sameKey), b(warm), b(remove), m, joinInts(sc)), ans)
 						hist["interleaving"]++
 					}
 				}
@@ -574,7 +619,11 @@ func cmdMemo(args []string) error {
 			fmt.Sscanf(x, "%d", &v)
 			sc = append(sc, v)
 		}
-		reads, final, ok := runInterleaving(kvs["threads"], kvs["same"] == "1", kvs["warm"] == "1", kvs["remove"] == "1", sc)
+		mm := kvs["m"]
+		if mm == "" {
+			mm = "objects"
+		}
+		reads, final, ok := runInterleaving(kvs["threads"], kvs["same"] == "1", kvs["warm"] == "1", kvs["remove"] == "1", mm, sc)
 		ans := "hang"
 		if ok {
 			ans = "r=" + strings.Join(reads, ",") + " final=" + final
